@@ -95,6 +95,9 @@ def build_harness():
     except OSError as e:
         raise Broken("cannot prepare go.sum: %s" % e)
     os.makedirs(os.path.join(HARNESS, "bin"), exist_ok=True)
+    if REPO != "/repo":
+        # a background sweep works on its own snapshot of the repository (vp run --with-repo): point the harness at it
+        subprocess.run(["go", "mod", "edit", "-replace", "pault.ag/go/debian=" + REPO], cwd=HARNESS, env=GOENV, check=False)
     p = subprocess.run(["go", "build", "-tags", "verif", "-o", HBIN, "."], cwd=HARNESS, env=GOENV,
                        stdout=subprocess.PIPE, stderr=subprocess.STDOUT, text=True)
     if p.returncode != 0:
